@@ -51,6 +51,7 @@ typedef struct {
 	size_t n;
 	int ret;
 	sqfs_u8 vk;	/* payload reads: the byte delivered at position g_k */
+	sqfs_u64 val;	/* small reads: first (up to) 8 bytes delivered, LE */
 } env_read_rec_t;
 
 typedef struct {
@@ -126,8 +127,9 @@ static void env_init(void)
 #endif
 
 /* A harness whose payload buffer is reached through an expression CBMC
- * cannot index efficiently (flexible array member inside a typed wrapper)
- * maps the pointer to the equivalent typed lvalue here. */
+ * cannot handle efficiently (flexible array member: see dr_common.h) maps the
+ * pointer to the object that stands for it here; preconditions are checked
+ * on the mapped pointer. */
 #ifndef ENV_REBASE
 #define ENV_REBASE(p) (p)
 #endif
@@ -164,7 +166,7 @@ static int stub_read_at(sqfs_file_t *file, sqfs_u64 offset,
 	bool fail;
 
 	VERIF_ASSERT(file == &g_file, ENV_NAME("read_at.file"));
-	VERIF_ASSERT(size == 0 || VERIF_W_OK(buffer, size),
+	VERIF_ASSERT(size == 0 || VERIF_W_OK(b, size),
 		     ENV_NAME("read_at.buffer_writable"));
 	ENV_ON_READ_AT(offset, buffer, size);
 	if (g_rd_n < ENV_LOG) {
@@ -210,9 +212,17 @@ static int stub_read_at(sqfs_file_t *file, sqfs_u64 offset,
 	}
 	/* determinism of the image (small reads only; a payload read is
 	   identified by its log entry: offset, length, byte at g_k) */
-	if (!ENV_IS_PAYLOAD(buffer, size) &&
-	    g_img_off >= offset && g_img_off - offset < size)
-		b[g_img_off - offset] = g_img_val;
+	if (!ENV_IS_PAYLOAD(buffer, size)) {
+		sqfs_u64 val = 0;
+
+		if (g_img_off >= offset && g_img_off - offset < size)
+			b[g_img_off - offset] = g_img_val;
+#define ENV_V1(i) if ((size_t)(i) < size) val |= (sqfs_u64)b[i] << (8 * (i));
+		ENV_V1(0) ENV_V1(1) ENV_V1(2) ENV_V1(3)
+		ENV_V1(4) ENV_V1(5) ENV_V1(6) ENV_V1(7)
+		if (g_rd_n < ENV_LOG)
+			g_rd[g_rd_n].val = val;
+	}
 	if (g_rd_n < ENV_LOG)
 		g_rd[g_rd_n].ret = 0;
 	++g_rd_n;
@@ -226,9 +236,9 @@ static sqfs_s32 stub_do_block(sqfs_compressor_t *cmp, const sqfs_u8 *in,
 	sqfs_s32 r;
 
 	VERIF_ASSERT(cmp == &g_cmp, ENV_NAME("do_block.cmp"));
-	VERIF_ASSERT(size == 0 || VERIF_R_OK(in, size),
+	VERIF_ASSERT(size == 0 || VERIF_R_OK(ENV_REBASE(in), size),
 		     ENV_NAME("do_block.input_readable"));
-	VERIF_ASSERT(outsize == 0 || VERIF_W_OK(out, outsize),
+	VERIF_ASSERT(outsize == 0 || VERIF_W_OK(ENV_REBASE(out), outsize),
 		     ENV_NAME("do_block.output_writable"));
 	ENV_ON_DO_BLOCK(in, size, out, outsize);
 	++g_env_seq;
@@ -257,8 +267,10 @@ static sqfs_s32 stub_do_block(sqfs_compressor_t *cmp, const sqfs_u8 *in,
 /* ---- checking payload copy routines ----------------------------------- */
 static void *verif_memcpy(void *dst, const void *src, size_t n)
 {
-	VERIF_ASSERT(n == 0 || VERIF_R_OK(src, n), ENV_NAME("memcpy.src_readable"));
-	VERIF_ASSERT(n == 0 || VERIF_W_OK(dst, n), ENV_NAME("memcpy.dst_writable"));
+	VERIF_ASSERT(n == 0 || VERIF_R_OK(ENV_REBASE(src), n),
+		     ENV_NAME("memcpy.src_readable"));
+	VERIF_ASSERT(n == 0 || VERIF_W_OK(ENV_REBASE(dst), n),
+		     ENV_NAME("memcpy.dst_writable"));
 	g_e.cpy_handled = false;
 	ENV_ON_MEMCPY(dst, src, n);
 	if (g_cpy_n < ENV_LOG) {
@@ -304,7 +316,8 @@ static void *verif_memcpy(void *dst, const void *src, size_t n)
 
 static void *verif_memset(void *dst, int c, size_t n)
 {
-	VERIF_ASSERT(n == 0 || VERIF_W_OK(dst, n), ENV_NAME("memset.dst_writable"));
+	VERIF_ASSERT(n == 0 || VERIF_W_OK(ENV_REBASE(dst), n),
+		     ENV_NAME("memset.dst_writable"));
 	++g_set_n;
 	++g_env_seq;
 	ENV_ON_WRITE(dst, n);
